@@ -258,6 +258,81 @@ def conc_cases(ctx, world, clock, n):
     ctx.correspond("interleaving", IMPORTS, "conc_case", "check_conc_case", lits, cj, shard=200)
 
 
+def inner_race(ctx, world, clock, n):
+    """Two threads INSIDE the limit check at the same time.  After one earlier fire, two threads hit exactly one
+    period later; the action's configuration parks each thread where the period is looked up, i.e. after the
+    last fire time has been read.  With the check-and-record step atomic only one of them can be there while the
+    other waits for the lock; whatever the code does, the two hits must not both collect."""
+    from deep.api.tracepoint.trigger import LocationAction, Trigger, LineLocation, Location
+    rng = ctx.rng
+    for k in range(n):
+        period = rng.choice([1, 5, 1000])
+        count = rng.choice(["-1", "3", "2"])
+        parked = {}
+        cv = threading.Condition()
+        opened = set()
+        armed = [False]
+
+        class GateDict(dict):
+            def get(self, key, default=None):
+                if armed[0] and key == "fire_period":
+                    ident = threading.get_ident()
+                    with cv:
+                        nth = parked.get(ident, 0) + 1
+                        parked[ident] = nth
+                        cv.notify_all()
+                        cv.wait_for(lambda: (ident, nth) in opened, timeout=5)
+                return dict.get(self, key, default)
+        conf = GateDict({"frame_type": "no_frame", "watches": [], "fire_count": count, "fire_period": str(period)})
+        action = LocationAction("tp", None, conf, LocationAction.ActionType.Snapshot)
+        world.install([Trigger(LineLocation("m.py", 7, Location.Position.START), [action])])
+        world.push.snapshots.clear()
+        t0 = e2.BASE_NS
+        clock.now = t0
+        world.event(e2.mk_frame("/app/m.py", "f", 7, {}), "line")          # the earlier fire
+        first = len(world.push.snapshots)
+        armed[0] = True
+        hit = t0 + period * MS
+        idents = {}
+
+        def body(i):
+            idents[i] = threading.get_ident()
+            clock.per_thread[threading.get_ident()] = hit + i
+            world.handler.trace_call(e2.mk_frame("/app/m.py", "f", 7, {}), "line", None)
+        ths = [threading.Thread(target=body, args=(i,), daemon=True) for i in range(2)]
+        for t in ths:
+            t.start()
+        # release every parked thread, round after round, until both hits are over; a thread waiting for the
+        # lock is simply not parked yet
+        import time as _t
+        end = _t.time() + 8
+        while any(t.is_alive() for t in ths) and _t.time() < end:
+            with cv:
+                cv.wait(0.05)
+                # let both threads reach their parking point before releasing anybody
+                waiting = [(ident, nth) for ident, nth in parked.items() if (ident, nth) not in opened]
+            _t.sleep(0.05)
+            with cv:
+                waiting = [(ident, nth) for ident, nth in parked.items() if (ident, nth) not in opened]
+                for w in waiting:
+                    opened.add(w)
+                cv.notify_all()
+        for t in ths:
+            t.join(2)
+        armed[0] = False
+        clock.per_thread.clear()
+        extra = len(world.push.snapshots) - first
+        j = dict(fire_count=count, fire_period_ms=period, earlier_fire=True, two_threads_hit_at="last fire + one period (+0 / +1 ns)",
+                 collections_by_the_two=extra)
+        ctx.case(j, bucket="inner-race")
+        if first != 1:
+            ctx.skip("inner race: the earlier hit did not collect")
+            continue
+        if extra > 1:
+            ctx.fail("two threads inside the limit check together: both collected, %d ns apart, with fire_period=%d ms" % (1, period), j,
+                     kind="schedule", tag="conc-period")
+
+
 def run(ctx):
     import logging
     logging.getLogger("deep").setLevel(logging.CRITICAL + 1)
@@ -280,6 +355,7 @@ def run(ctx):
         seq_cases(ctx, world, clock, 2500 if ctx.thorough else 400)
         window_args_case(ctx, world, clock)
         conc_cases(ctx, world, clock, 400 if ctx.thorough else 60)
+        inner_race(ctx, world, clock, 30 if ctx.thorough else 6)
     finally:
         clock.restore()
         world.clear_pending()
